@@ -342,7 +342,7 @@ CANARIES = {
             "module": "mici.samplers",
             "old": "        n_trace_iter = n_warm_up_iter + n_main_iter if trace_warm_up else n_main_iter",
             "new": "        n_trace_iter = n_warm_up_iter + n_main_iter",
-            "cases": ["configs/1", "configs/2"], "what": "output arrays longer than the number of recorded iterations (fill values survive)",
+            "cases": ["configs/4", "configs/5", "configs/6"], "what": "output arrays longer than the number of recorded iterations (fill values survive)",
         },
     },
     "C14": {
